@@ -98,7 +98,13 @@ fn part_docs(seed: u64, shard: u64, n: u64) -> Report {
     let mut rep = new_rep();
     for i in 0..n {
         let mut rng = Rng::derive(seed, "c19-mrt-doc", shard, i);
-        let d = if i % 50 == 49 { docgen::gen_doc_star_exotic(&mut rng) } else { docgen::gen_doc(&mut rng) };
+        let d = if i % 50 == 49 {
+            docgen::gen_doc_star_exotic(&mut rng)
+        } else if i % 200 == 7 {
+            docgen::gen_doc_macro_exotic(&mut rng)
+        } else {
+            docgen::gen_doc(&mut rng)
+        };
         // indentation as inside a module / a trait
         let indent = " ".repeat(4 * rng.usize(3));
         let mut text = String::new();
